@@ -58,9 +58,6 @@ theorem strip_affixed (a : Nat) (pre body : PStr) (b : Nat) (w : PStr) (ha : isS
   rw [this]
   exact rstrip_append_ws _ b w hw hb
 
-/-- the whitespace `rstrip` removes -/
-def rtail (s : PStr) : PStr := (s.reverse.takeWhile isSpace).reverse
-
 theorem rstrip_append_rtail (s : PStr) : rstrip s ++ rtail s = s := by
   have h : s.reverse.takeWhile isSpace ++ s.reverse.dropWhile isSpace = s.reverse := List.takeWhile_append_dropWhile
   calc rstrip s ++ rtail s = (s.reverse.takeWhile isSpace ++ s.reverse.dropWhile isSpace).reverse := by
